@@ -78,7 +78,11 @@ func c06Cases(tier string, seed int64) []core.Case {
 			cases = append(cases, core.Case{ID: fmt.Sprintf("mutated/%s/dotu=%v/debug", server, dotu), Run: func(ctx *core.Ctx) core.Result {
 				debugAll = true
 				defer func() { debugAll = false }()
-				return c06Mutated(ctx, server, dotu, 4, nmut/4)
+				n := nmut / 4
+				if n > 300 {
+					n = 300 // every logged message pins its connection (buffers included) in the server's ring
+				}
+				return c06Mutated(ctx, server, dotu, 4, n)
 			}})
 			cases = append(cases, core.Case{ID: fmt.Sprintf("listener/%s/dotu=%v", server, dotu), Run: func(ctx *core.Ctx) core.Result {
 				return c06Listener(ctx, server, dotu)
@@ -147,8 +151,14 @@ func newHostile(ctx *core.Ctx, res *core.Result, server string, dotu bool) *host
 		}
 		h.s = NewUfsSess(h.root, dotu, 8192)
 		h.s.Srv.Debuglevel = dbg
+		if dbg != 0 {
+			h.s.Srv.Log = go9p.NewLogger(64)
+		}
 	} else {
 		h.s = NewSess(Config{Dotu: dotu, Msize: 8192, Debug: dbg, Auth: true}) // with authentication operations: auth fids exist
+		if dbg != 0 {
+			h.s.Srv.Log = go9p.NewLogger(64)
+		}
 	}
 	// the bystander: attached, with an open fid
 	h.by = h.s.Dial()
